@@ -26,19 +26,6 @@ def parsePaving (s : String) : Option Paving :=
       | _ => none
     pure ⟨items.filterMap (·.1), items.filterMap (·.2)⟩
 
-/-- interval evaluation of a constraint over a box proves it for every point (C02 `run_encl`) -/
-def provedOnBox (funs : List Dag) (dag : Dag) (spec : String) (box : Box) : Bool :=
-  match Eval.root Alg.itv box (buildCalls Alg.itv funs) dag with
-  | some v =>
-    v.d.all fun z =>
-      match z, spec with
-      | .mk _ hi, "leq" => Ext.le hi (.fin 0)
-      | .mk _ hi, "lt" => Ext.lt hi (.fin 0)
-      | .mk lo _, "geq" => Ext.le (.fin 0) lo
-      | .mk lo _, "gt" => Ext.lt (.fin 0) lo
-      | _, _ => false
-  | none => false
-
 def opsSolver (op : String) (ins outs : List String) : Option String :=
   match op, ins, outs with
   | "solvelog", [dags, specs, root, evs, pv], [_] => do
@@ -84,23 +71,16 @@ def opsSolver (op : String) (ins outs : List String) : Option String :=
     let ss := specs.splitOn "|"
     if ds.length != ss.length then none else
     let b ← parseBox box
-    let ok := (List.zip ds ss).all fun (x : (List Dag × Dag) × String) => provedOnBox x.1.1 x.1.2 x.2 b
+    let ok := Cover.innerOk (List.zip ds ss) b
     pure (if ok then "ok inner-certified" else "FAIL inner-box-not-certified-by-the-model")
   | "solveunknown", [box, eps], _ => do
     let b ← parseBox box
     let eps ← (eps.splitOn ";").mapM parseExt
-    -- an unknown box: every component is narrower than (or equal to) eps_min, or cannot be bisected
-    let ok := b.length == eps.length && (List.zip b eps).all fun q => Ext.le (Box.diamUp q.1) q.2 || !Box.bisectable q.1
+    let ok := Cover.unknownSmall b eps
     pure (if ok then "ok unknown-small" else "FAIL unknown-box-wider-than-eps-min")
   | "solvestatus", [st, nsol, nbnd, nunk, npend, ninner, _], _ => do
     let nsol ← nsol.toNat?; let nbnd ← nbnd.toNat?; let nunk ← nunk.toNat?; let npend ← npend.toNat?; let ninner ← ninner.toNat?
-    let ok := match st with
-      | "SUCCESS" => nunk == 0 && npend == 0
-      | "INFEASIBLE" => nsol + nbnd + nunk + npend + ninner == 0
-      | "NOT_ALL_VALIDATED" => npend == 0 && nunk > 0
-      | "CELL_OVERFLOW" => true
-      | "TIME_OUT" => true
-      | _ => false
+    let ok := Cover.statusOk st nsol nbnd nunk npend ninner
     pure (if ok then "ok status-" ++ st else "FAIL status-disagrees-with-output")
   | "defaultsolver", [_], [st] =>
     pure (if st.startsWith "ABORT" then "FAIL default-solver-aborted" else "ok default-solver-" ++ st)
